@@ -1,1 +1,25 @@
-fn main() { eprintln!("not implemented"); std::process::exit(2); }
+//! p-db: checks for the zone store (C20), zone validation (C21) and the
+//! catalog (C22). One binary, dispatching on the property id.
+
+mod alloc;
+mod bfs;
+mod c20;
+mod c21;
+mod c22;
+mod dbg;
+mod refmodel;
+
+use qvlib::Ctx;
+
+#[global_allocator]
+static POOL: alloc::Pool = alloc::Pool;
+
+fn main() {
+    let ctx = Ctx::from_args(&["C20", "C21", "C22"]);
+    match ctx.id.as_str() {
+        "C20" => c20::main(ctx),
+        "C21" => c21::main(ctx),
+        "C22" => c22::main(ctx),
+        _ => unreachable!(),
+    }
+}
